@@ -229,4 +229,29 @@ Section BufReaderProofs.
     destruct (read_until_spec LF fuel st d m HR Hf) as [st' [m' [E H]]].
     exists st', m'. unfold read_line. rewrite E. auto.
   Qed.
+
+  (* gff::io::Reader::read_line: blank lines are skipped; closed form on the data *)
+  Fixpoint gff_closed (lines : nat) (d : list N) : option (nat * list N * list N) :=
+    match lines with
+    | 0 => None
+    | Datatypes.S k =>
+      let l := take_line LF d in
+      if (length l =? 0) || negb (forallb is_ascii_ws (strip_eol l))
+      then Some (length l, strip_eol l, skipn (length l) d)
+      else gff_closed k (skipn (length l) d)
+    end.
+
+  Theorem gff_read_line_spec : forall lines fuel st d m n l rest,
+    rep_buf st d m -> m + length d + 1 < fuel -> gff_closed lines d = Some (n, l, rest) ->
+    exists st' m', gff_read_line rd cap lines fuel st = (n, l, UOk, st') /\ rep_buf st' rest m' /\ m' <= m.
+  Proof.
+    induction lines as [|lines IH]; intros fuel st d m n l rest HR Hf Hc; [discriminate|].
+    cbn [gff_read_line gff_closed] in *.
+    destruct (read_line_spec fuel st d m HR Hf) as [st1 [m1 [E1 [HR1 Hm1]]]]. rewrite E1.
+    destruct ((length (take_line LF d) =? 0) || negb (forallb is_ascii_ws (strip_eol (take_line LF d)))).
+    - injection Hc as Hn Hl Hr. subst n l rest. exists st1, m1. auto.
+    - destruct (IH fuel st1 _ m1 n l rest HR1) as [st' [m' [E [HR' Hm']]]]; [|exact Hc|].
+      + rewrite skipn_length. lia.
+      + exists st', m'. split; [exact E|]. split; [exact HR'|lia].
+  Qed.
 End BufReaderProofs.
